@@ -40,12 +40,12 @@ VALS = ['', 'v', 'w']
 # which predicates a property judges (the tie is always complete; when the tie breaks on a program, that program
 # is judged with every predicate so that a concrete failing input is reported)
 PREDICATES = {
-    'C01': ('infeasible', 'lifecycle', 'views', 'promised', 'valueError', 'earlyStop'),
+    'C01': ('infeasible', 'lifecycle', 'views', 'promised', 'effects', 'valueError', 'earlyStop'),
     'C02': ('assigned', 'two-workers', 'lifecycle', 'promised'),
     'C06': ('reported', 'poll', 'lifecycle'),
 }
-ALL_PREDICATES = ('infeasible', 'lifecycle', 'views', 'assigned', 'two-workers', 'reported', 'poll', 'promised', 'valueError', 'earlyStop')
-LEAN_PREDICATES = ('infeasible', 'assigned', 'reported', 'poll', 'lifecycle', 'views', 'promised', 'valueError', 'earlyStop')
+ALL_PREDICATES = ('infeasible', 'lifecycle', 'views', 'assigned', 'two-workers', 'reported', 'poll', 'promised', 'effects', 'valueError', 'earlyStop')
+LEAN_PREDICATES = ('infeasible', 'assigned', 'reported', 'poll', 'lifecycle', 'views', 'promised', 'effects', 'valueError', 'earlyStop')
 
 WEIGHTS = {
     'C01': {'suggest': 10, 'complete': 14, 'add_measurement': 6, 'stop': 4, 'delete_trial': 3, 'trials': 4, 'get_trial': 2,
@@ -225,7 +225,7 @@ class ClientRunner:
       sug = vz.TrialSuggestion({'x': float(s['params'])}, metadata=make_metadata(s.get('md', [])))
       return {'k': 'handle', 'id': study.request(sug).id}
     if op == 'add_trial':
-      x = float(s['params']) if s.get('inSpace', True) else -1.0 - float(s['params'])
+      x = float(s['params']) if s.get('inSpace', True) else 5000.0 + float(s['params'])     # the space is [0, 1000 + spec]
       tr = vz.Trial(parameters={'x': x})
       if s.get('final') is not None:
         tr.complete(make_measurement(s['final']))
@@ -495,6 +495,8 @@ KEYS_WHAT = {
     'views': ('client:illegal-lifecycle-through-trials-view', 'two successive Study.trials() views are not a legal evolution'),
     'promised': ('client:promised-exception-or-value-missing',
                  'Study.get_trial / Study.from_resource_name of something that does not exist did not raise ResourceNotFoundError, or suggest on a study that is not open did not return []'),
+    'effects': ('client:documented-effect-of-call-missing',
+                'a client call did not have its documented effect (complete stores / returns the given measurement, stop -> STOPPING, set_state stores the state, delete removes the trial, update_metadata of a missing trial raises RuntimeError)'),
     # the two documented behaviours the code as it exists does not have (known findings, kernel-checked counterexamples
     # client_complete_value_error_counterexample / client_early_stop_counterexample)
     'valueError': ('client:complete-with-nothing-to-select-does-not-raise-valueerror',
@@ -504,16 +506,10 @@ KEYS_WHAT = {
 }
 
 
-def judge_requests(prog, real):
-  reqs = []
-  prev = {'owners': [], 'studies': []}
-  prev_view = None
-  for i, s in enumerate(prog):
-    jr = {'op': 'judge', 'before': prev, 'after': real['snaps'][i], 'handle': HANDLE, 'call': s, 'obs': real['obs'][i],
-          'getops': real['getops'][i], 'bound': POLL_BOUND, 'viewBefore': prev_view, 'viewAfter': real['views'][i]}
-    reqs.append(jr)
-    prev, prev_view = real['snaps'][i], real['views'][i]
-  return reqs
+def judge_request(prog, real):
+  """One driver request judging every step of a real run (each step against the snapshot / view before it)."""
+  return {'op': 'judgeProgram', 'handle': HANDLE, 'bound': POLL_BOUND, 'calls': prog, 'obs': real['obs'], 'snaps': real['snaps'],
+          'getops': real['getops'], 'views': real['views']}
 
 
 def two_workers(prog, real):
@@ -536,29 +532,28 @@ def two_workers(prog, real):
   return bad
 
 
-def evaluate(c, items, preds):
+def evaluate(c, items, preds, deadline=None):
   """items: [(prog, backend)].  Runs each on the real client and judges every step.
-  -> [(real, failures)], failures = [(step, predicate)]"""
+  -> [(real, failures)], failures = [(step, predicate)]; items after `deadline` are skipped -> (None, [])"""
   reals = []
-  jreqs, jctx = [], []
-  for k, (prog, be) in enumerate(items):
-    real = run_real(be, prog)
+  for prog, be in items:
+    if deadline is not None and time.time() > deadline:
+      reals.append(None)
+      continue
+    reals.append(run_real(be, prog))
     c.traces += 1
-    reals.append(real)
-    for i, jr in enumerate(judge_requests(prog, real)):
-      jreqs.append(jr)
-      jctx.append((k, i))
-  verdicts = c.lean('Client', jreqs) if jreqs else []
+  idx = [k for k, r in enumerate(reals) if r is not None]
+  answers = c.lean('Client', [judge_request(items[k][0], reals[k]) for k in idx]) if idx else []
   fails = [[] for _ in items]
-  for (k, i), v in zip(jctx, verdicts):
-    if 'error' in v:
-      raise core.InfraError('client judge: %s' % v)
-    for p in LEAN_PREDICATES:
-      if p in preds and not v[p]:
-        fails[k].append((i, p))
-  if 'two-workers' in preds:
-    for k, (prog, be) in enumerate(items):
-      for (i, tid, a, b) in two_workers(prog, reals[k]):
+  for k, ans in zip(idx, answers):
+    if 'error' in ans:
+      raise core.InfraError('client judge: %s' % ans)
+    for i, v in enumerate(ans['verdicts']):
+      for p in LEAN_PREDICATES:
+        if p in preds and not v[p]:
+          fails[k].append((i, p))
+    if 'two-workers' in preds:
+      for (i, tid, a, b) in two_workers(items[k][0], reals[k]):
         fails[k].append((i, 'two-workers'))
   return list(zip(reals, fails))
 
@@ -636,8 +631,12 @@ def stage(c, prop, backends=('ram', 'sqlmem')):
           raise core.InfraError('client driver: %s' % m)
     models[be] = models[key]
 
-  items = [(pi, be) for pi in range(len(progs)) for be in backends]
-  results = evaluate(c, [(progs[pi], be) for pi, be in items], preds)
+  # first backend: every program; the others: the directed programs, then the generated ones while time permits
+  items = [(pi, backends[0]) for pi in range(len(progs))]
+  items += [(pi, be) for be in backends[1:] for pi in range(len(progs))]
+  results = evaluate(c, [(progs[pi], be) for pi, be in items], preds, deadline=t0 + budget * 0.85)
+  kept = [k for k, (real, _) in enumerate(results) if real is not None]
+  items, results = [items[k] for k in kept], [results[k] for k in kept]
   all_fails = []
   broken = []
   for k, ((pi, be), (real, fails)) in enumerate(zip(items, results)):
@@ -678,9 +677,10 @@ def stage(c, prop, backends=('ram', 'sqlmem')):
     c.count(0, ('client-prog', prop, pi) if errs >= 1 and len(kinds & {'suggest', 'complete', 'delete_trial', 'request', 'add_trial', 'check_early_stopping'}) >= 2 else None)
   if progs:
     k = min(len(progs) - 1, n_directed)
-    c.sample({'client_program': progs[k], 'real_observations(%s)' % backends[0]: results[k * len(backends)][0]['obs']})
+    c.sample({'client_program': progs[k], 'real_observations(%s)' % backends[0]: results[k][0]['obs']})
   c.coverage_extra.setdefault('client_layer', {})[prop] = {
       'programs': len(progs), 'directed': n_directed, 'backends': backends, 'predicates': list(preds),
+      'runs_per_backend': {be: sum(1 for _, b in items if b == be) for be in backends},
       'poll_bound': POLL_BOUND, 'wall_s': round(time.time() - t0, 1)}
   svc.cleanup()
   return len(progs)
